@@ -13,6 +13,10 @@ from pydiverse.common import (
     Dtype,
     Int,
     String,
+    UInt8,
+    UInt16,
+    UInt32,
+    UInt64,
 )
 from pydiverse.transform._internal.backend.table_impl import (
     TableImpl,
@@ -441,7 +445,10 @@ def compile_ast(
                 *(compile_col_expr(pred, name_in_df) for pred in predicates),
             ).with_columns(
                 # polars deletes the right column in equality predicates...
-                pl.col(name_in_df[left_col._uuid]).alias(name_in_df[right_col._uuid])
+                # (the restored column keeps the type of the right column)
+                pl.col(name_in_df[left_col._uuid])
+                .cast(right_df.collect_schema()[name_in_df[right_col._uuid]])
+                .alias(name_in_df[right_col._uuid])
                 for left_col, right_col in zip(left_on, right_on, strict=True)
                 if isinstance(left_col, Col) and isinstance(right_col, Col)
             )
@@ -550,6 +557,13 @@ with PolarsImpl.impl_store.impl_manager as impl:
     @impl(ops.any)
     def _any(x):
         return x.any()
+
+    @impl(ops.neg)
+    def _neg(x, *, _sig):
+        if isinstance(types.without_const(_sig[0]), UInt8 | UInt16 | UInt32 | UInt64):
+            # polars cannot negate unsigned integers
+            x = x.cast(pl.Int64)
+        return -x
 
     @impl(ops.is_null)
     def _is_null(x):
